@@ -184,6 +184,16 @@ CHECKS = {
              "file-system atomicity are assumptions; power loss is not injected.",
         note=TRUST + "SQLite atomic commit/WAL recovery/backup API and rename atomicity are model definitions.",
         ref="DESIGN.md section 4 C11"),
+    "C20": dict(
+        technique="Coq proof (no-backup start-up safe for every schedule and worker count, by induction over the schedule; backup race refuted with a witness) + real multi-process runs",
+        text="Theorem c20_no_backup_every_schedule on the model of create_db's start-up steps interleaved by an arbitrary "
+             "schedule; c20_backup_present_refuted exhibits the check-then-unlink-then-rename race (known finding). The real "
+             "code is run with 2-16 barrier-released worker processes (random offsets and page orders, templates and #invoke) "
+             "and with single-preemption schedules that pause one worker at every executed start-up line while another runs, "
+             "with/without backup and bootstrap page; each worker's expansions are compared with a single process and the pages "
+             "table before/after. PARTIAL: real interleavings are sampled, lock time-outs are timing-dependent.",
+        note=TRUST + "SQLite locking and the OS scheduler are outside the model.",
+        ref="DESIGN.md section 4 C20"),
 }
 
 NOT_YET = "check not built yet in this round (planned, see DESIGN.md section 8)"
